@@ -101,3 +101,23 @@ pub fn f64_of<T: num_traits::ToPrimitive>(x: T) -> f64 {
 pub fn vec_of<T: num_traits::ToPrimitive + Copy>(x: &[T]) -> Vec<f64> {
     x.iter().map(|v| f64_of(*v)).collect()
 }
+
+// ---------------------------------------------------------------------------
+// public wrappers around crate-private algebra traits
+// ---------------------------------------------------------------------------
+
+/// y = a*A*x + b*y  (or with A transposed)
+pub fn csc_gemv(A: &crate::algebra::CscMatrix<f64>, transpose: bool, y: &mut [f64], x: &[f64], a: f64, b: f64) {
+    use crate::algebra::MatrixVectorMultiply;
+    if transpose {
+        A.t().gemv(y, x, a, b);
+    } else {
+        A.gemv(y, x, a, b);
+    }
+}
+
+/// y = a*Sym(A)*x + b*y for an upper-triangular A read as a symmetric matrix
+pub fn csc_symv(A: &crate::algebra::CscMatrix<f64>, y: &mut [f64], x: &[f64], a: f64, b: f64) {
+    use crate::algebra::SymMatrixVectorMultiply;
+    A.sym().symv(y, x, a, b);
+}
